@@ -38,24 +38,26 @@ Record st := mkSt {
   inFunc : bool;
   noErrExit : bool;
   errexit : bool;               (* r.opts[optErrExit] *)
+  pipefail : bool;              (* r.opts[optPipeFail] *)
   ctx : option nat;
   late : nat;
   stuck : bool }.
 
-Definition set_vars v s := mkSt v (funcs s) (out s) (ex s) (lastEx s) (brk s) (cnt s) (inLoop s) (inFunc s) (noErrExit s) (errexit s) (ctx s) (late s) (stuck s).
-Definition set_funcs v s := mkSt (vars s) v (out s) (ex s) (lastEx s) (brk s) (cnt s) (inLoop s) (inFunc s) (noErrExit s) (errexit s) (ctx s) (late s) (stuck s).
-Definition set_out v s := mkSt (vars s) (funcs s) v (ex s) (lastEx s) (brk s) (cnt s) (inLoop s) (inFunc s) (noErrExit s) (errexit s) (ctx s) (late s) (stuck s).
-Definition set_ex v s := mkSt (vars s) (funcs s) (out s) v (lastEx s) (brk s) (cnt s) (inLoop s) (inFunc s) (noErrExit s) (errexit s) (ctx s) (late s) (stuck s).
-Definition set_lastEx v s := mkSt (vars s) (funcs s) (out s) (ex s) v (brk s) (cnt s) (inLoop s) (inFunc s) (noErrExit s) (errexit s) (ctx s) (late s) (stuck s).
-Definition set_brk v s := mkSt (vars s) (funcs s) (out s) (ex s) (lastEx s) v (cnt s) (inLoop s) (inFunc s) (noErrExit s) (errexit s) (ctx s) (late s) (stuck s).
-Definition set_cnt v s := mkSt (vars s) (funcs s) (out s) (ex s) (lastEx s) (brk s) v (inLoop s) (inFunc s) (noErrExit s) (errexit s) (ctx s) (late s) (stuck s).
-Definition set_inLoop v s := mkSt (vars s) (funcs s) (out s) (ex s) (lastEx s) (brk s) (cnt s) v (inFunc s) (noErrExit s) (errexit s) (ctx s) (late s) (stuck s).
-Definition set_inFunc v s := mkSt (vars s) (funcs s) (out s) (ex s) (lastEx s) (brk s) (cnt s) (inLoop s) v (noErrExit s) (errexit s) (ctx s) (late s) (stuck s).
-Definition set_noErrExit v s := mkSt (vars s) (funcs s) (out s) (ex s) (lastEx s) (brk s) (cnt s) (inLoop s) (inFunc s) v (errexit s) (ctx s) (late s) (stuck s).
-Definition set_errexit v s := mkSt (vars s) (funcs s) (out s) (ex s) (lastEx s) (brk s) (cnt s) (inLoop s) (inFunc s) (noErrExit s) v (ctx s) (late s) (stuck s).
-Definition set_ctx v s := mkSt (vars s) (funcs s) (out s) (ex s) (lastEx s) (brk s) (cnt s) (inLoop s) (inFunc s) (noErrExit s) (errexit s) v (late s) (stuck s).
-Definition set_late v s := mkSt (vars s) (funcs s) (out s) (ex s) (lastEx s) (brk s) (cnt s) (inLoop s) (inFunc s) (noErrExit s) (errexit s) (ctx s) v (stuck s).
-Definition set_stuck v s := mkSt (vars s) (funcs s) (out s) (ex s) (lastEx s) (brk s) (cnt s) (inLoop s) (inFunc s) (noErrExit s) (errexit s) (ctx s) (late s) v.
+Definition set_vars v s := mkSt v (funcs s) (out s) (ex s) (lastEx s) (brk s) (cnt s) (inLoop s) (inFunc s) (noErrExit s) (errexit s) (pipefail s) (ctx s) (late s) (stuck s).
+Definition set_funcs v s := mkSt (vars s) v (out s) (ex s) (lastEx s) (brk s) (cnt s) (inLoop s) (inFunc s) (noErrExit s) (errexit s) (pipefail s) (ctx s) (late s) (stuck s).
+Definition set_out v s := mkSt (vars s) (funcs s) v (ex s) (lastEx s) (brk s) (cnt s) (inLoop s) (inFunc s) (noErrExit s) (errexit s) (pipefail s) (ctx s) (late s) (stuck s).
+Definition set_ex v s := mkSt (vars s) (funcs s) (out s) v (lastEx s) (brk s) (cnt s) (inLoop s) (inFunc s) (noErrExit s) (errexit s) (pipefail s) (ctx s) (late s) (stuck s).
+Definition set_lastEx v s := mkSt (vars s) (funcs s) (out s) (ex s) v (brk s) (cnt s) (inLoop s) (inFunc s) (noErrExit s) (errexit s) (pipefail s) (ctx s) (late s) (stuck s).
+Definition set_brk v s := mkSt (vars s) (funcs s) (out s) (ex s) (lastEx s) v (cnt s) (inLoop s) (inFunc s) (noErrExit s) (errexit s) (pipefail s) (ctx s) (late s) (stuck s).
+Definition set_cnt v s := mkSt (vars s) (funcs s) (out s) (ex s) (lastEx s) (brk s) v (inLoop s) (inFunc s) (noErrExit s) (errexit s) (pipefail s) (ctx s) (late s) (stuck s).
+Definition set_inLoop v s := mkSt (vars s) (funcs s) (out s) (ex s) (lastEx s) (brk s) (cnt s) v (inFunc s) (noErrExit s) (errexit s) (pipefail s) (ctx s) (late s) (stuck s).
+Definition set_inFunc v s := mkSt (vars s) (funcs s) (out s) (ex s) (lastEx s) (brk s) (cnt s) (inLoop s) v (noErrExit s) (errexit s) (pipefail s) (ctx s) (late s) (stuck s).
+Definition set_noErrExit v s := mkSt (vars s) (funcs s) (out s) (ex s) (lastEx s) (brk s) (cnt s) (inLoop s) (inFunc s) v (errexit s) (pipefail s) (ctx s) (late s) (stuck s).
+Definition set_errexit v s := mkSt (vars s) (funcs s) (out s) (ex s) (lastEx s) (brk s) (cnt s) (inLoop s) (inFunc s) (noErrExit s) v (pipefail s) (ctx s) (late s) (stuck s).
+Definition set_pipefail v s := mkSt (vars s) (funcs s) (out s) (ex s) (lastEx s) (brk s) (cnt s) (inLoop s) (inFunc s) (noErrExit s) (errexit s) v (ctx s) (late s) (stuck s).
+Definition set_ctx v s := mkSt (vars s) (funcs s) (out s) (ex s) (lastEx s) (brk s) (cnt s) (inLoop s) (inFunc s) (noErrExit s) (errexit s) (pipefail s) v (late s) (stuck s).
+Definition set_late v s := mkSt (vars s) (funcs s) (out s) (ex s) (lastEx s) (brk s) (cnt s) (inLoop s) (inFunc s) (noErrExit s) (errexit s) (pipefail s) (ctx s) v (stuck s).
+Definition set_stuck v s := mkSt (vars s) (funcs s) (out s) (ex s) (lastEx s) (brk s) (cnt s) (inLoop s) (inFunc s) (noErrExit s) (errexit s) (pipefail s) (ctx s) (late s) v.
 
 Definition set_code (c : N) (s : st) : st :=
   set_ex (mkExit c (returning (ex s)) (exiting (ex s)) (fatalExit (ex s))) s.
@@ -88,12 +90,12 @@ Definition stop (s : st) : bool * st :=
    functions are copied, stdout and the context are shared, the loop/function flags
    and the counters start from zero, exit/lastExit/noErrExit/opts are copied. *)
 Definition subshell (s : st) : st :=
-  mkSt (vars s) (funcs s) (out s) (ex s) (lastEx s) 0%Z 0%Z false false (noErrExit s) (errexit s) (ctx s) (late s) (stuck s).
+  mkSt (vars s) (funcs s) (out s) (ex s) (lastEx s) 0%Z 0%Z false false (noErrExit s) (errexit s) (pipefail s) (ctx s) (late s) (stuck s).
 (* r2.exit.exiting = false; r.exit = r2.exit  (plus what is shared) *)
 Definition subshell_join (s s2 : st) : st :=
   mkSt (vars s) (funcs s) (out s2)
        (mkExit (code (ex s2)) (returning (ex s2)) false (fatalExit (ex s2)))
-       (lastEx s) (brk s) (cnt s) (inLoop s) (inFunc s) (noErrExit s) (errexit s) (ctx s2) (late s2) (stuck s2).
+       (lastEx s) (brk s) (cnt s) (inLoop s) (inFunc s) (noErrExit s) (errexit s) (pipefail s) (ctx s2) (late s2) (stuck s2).
 
 (* ---- builtins (interp/builtin.go); [r.exit = r.builtin(...)], exit starts as exitStatus{} ---- *)
 Definition builtin_loopctl (is_cont : bool) (args : list str) (s : st) : st :=
@@ -150,6 +152,11 @@ Definition builtin (name : str) (args : list str) (s : st) : st :=
     | [a] => if str_eqb a n_me then set_ex exit0 (set_errexit true s)
              else if str_eqb a n_pe then set_ex exit0 (set_errexit false s)
              else set_stuck true s
+    | [a; b] => if str_eqb b n_pipefail then
+                  if str_eqb a n_mo then set_ex exit0 (set_pipefail true s)
+                  else if str_eqb a n_po then set_ex exit0 (set_pipefail false s)
+                  else set_stuck true s
+                else set_stuck true s
     | _ => set_stuck true s
     end
   else if is_other_builtin name then set_stuck true s
@@ -253,17 +260,19 @@ Fixpoint for_loop (x : str) (items : list str) (b : list stmt) (s : st) : st :=
       if broken then s else for_loop x items' b s
   end.
 
+(* a pattern with a command substitution is outside the model *)
 Definition pat_match (s : st) (subject : str) (p : pat) : bool :=
   match p with
   | PAny => true
-  | PWord w => str_eqb (expand_word (vars s) (code (lastEx s)) w) subject
+  | PWord w => str_eqb (expand_pure (vars s) (code (lastEx s)) w) subject
   end.
 
 Fixpoint case_items (subject : str) (items : list (list pat * list stmt)) (s : st) : st :=
   match items with
   | [] => s
   | (pats, body) :: rest =>
-      if existsb (pat_match s subject) pats then rstmts body s
+      if existsb pat_has_subst pats then set_stuck true s
+      else if existsb (pat_match s subject) pats then rstmts body s
       else case_items subject rest s
   end.
 
@@ -286,7 +295,41 @@ Definition call (fields : list str) (s : st) : st :=
       end
   end.
 
-Definition expw (s : st) (w : word) : str := expand_word (vars s) (code (lastEx s)) w.
+(* The CmdSubst callback of fillExpandConfig + expand.Config.cmdSubst: the list runs in
+   r.subshell(false) with its stdout captured; r.lastExpandExit = r2.exit (exiting = false).
+   [le] is r.lastExpandExit.  A fatal error inside (cancelled context) is outside the model. *)
+Definition cmdsubst (l : list stmt) (s : st) (le : exitT) : str * st * exitT :=
+  match l with
+  | [] => ([], s, le)
+  | _ =>
+      let s2 := rstmts l (set_out [] (subshell s)) in
+      let s' := set_stuck (stuck s2 || fatalExit (ex s2)) (set_late (late s2) (set_ctx (ctx s2) s)) in
+      (subst_output (out s2), s',
+       mkExit (code (ex s2)) (returning (ex s2)) false (fatalExit (ex s2)))
+  end.
+
+(* expand.Literal / one field of expand.Fields for a word whose expansions are all quoted *)
+Fixpoint expand_word (w : word) (s : st) (le : exitT) : str * st * exitT :=
+  match w with
+  | [] => ([], s, le)
+  | p :: w' =>
+      let '(a, s1, le1) :=
+        match p with
+        | WSubst l => cmdsubst l s le
+        | _ => (match part_pure (vars s) (code (lastEx s)) p with Some a => a | None => [] end, s, le)
+        end in
+      let '(b, s2, le2) := expand_word w' s1 le1 in
+      (a ++ b, s2, le2)
+  end.
+
+Fixpoint expand_words (ws : list word) (s : st) (le : exitT) : list str * st * exitT :=
+  match ws with
+  | [] => ([], s, le)
+  | w :: ws' =>
+      let '(a, s1, le1) := expand_word w s le in
+      let '(l, s2, le2) := expand_words ws' s1 le1 in
+      (a :: l, s2, le2)
+  end.
 
 (* Runner.cmd, given the fuel for while loops *)
 Definition cmd_step (fuel : nat) (c : cmd) (s : st) : st :=
@@ -294,9 +337,12 @@ Definition cmd_step (fuel : nat) (c : cmd) (s : st) : st :=
   if b then s else
   match c with
   | CAssign x w =>
-      let s := set_vars (update x (expw s w) (vars s)) s in
-      if ok s then set_ex exit0 s else s           (* r.exit = r.lastExpandExit *)
-  | CCall w ws => call (List.map (expw s) (w :: ws)) s
+      let '(v, s, le) := expand_word w s exit0 in  (* r.lastExpandExit = exitStatus{} *)
+      let s := set_vars (update x v (vars s)) s in
+      if ok s then set_ex le s else s              (* r.exit = r.lastExpandExit *)
+  | CCall w ws =>
+      let '(fields, s, _) := expand_words (w :: ws) s exit0 in
+      call fields s
   | CBlock l => rstmts l s
   | CSub l => subshell_join s (rstmts l (subshell s))
   | CAnd x y =>
@@ -318,8 +364,27 @@ Definition cmd_step (fuel : nat) (c : cmd) (s : st) : st :=
         | None => s
         end
   | CWhile u c b => while_loop fuel u c b 0 s
-  | CFor x items b => for_loop x (List.map (expw s) items) b s
-  | CCase w items => case_items (expw s w) items s
+  | CFor x items b =>
+      let '(fields, s, _) := expand_words items s exit0 in
+      for_loop x fields b s
+  | CCase w items =>
+      let '(subject, s, _) := expand_word w s exit0 in
+      case_items subject items s
+  | CPipe x y =>
+      (* case syntax.Pipe: X runs in r.subshell(true) writing into a pipe that no core builtin
+         reads, concurrently with Y, which runs IN THIS SHELL; the two only share the context,
+         so with a live context the interleaving does not matter.  A context that can be
+         cancelled makes the interleaving observable: outside the model. *)
+      match ctx s with
+      | Some _ => set_stuck true s
+      | None =>
+          let s2 := rstmt x (set_out [] (subshell s)) in
+          let s := set_stuck (stuck s || stuck s2) s in
+          let s := rstmt y s in
+          if pipefail s && negb (code (ex s2) =? 0) && ok s
+          then set_ex (mkExit (code (ex s2)) (returning (ex s2)) false (fatalExit (ex s2))) s
+          else s
+      end
   | CFunc name body => set_funcs (update name body (funcs s)) s
   end.
 End Inner.
@@ -342,7 +407,7 @@ Definition run_prog (fuel : nat) (p : prog) (s : st) : st :=
   set_lastEx (ex s) s.
 
 Definition init_st : st :=
-  mkSt [] [] [] exit0 exit0 0%Z 0%Z false false false false None O false.
+  mkSt [] [] [] exit0 exit0 0%Z 0%Z false false false false false None O false.
 
 (* what the harness observes: stdout, exit status, final variables *)
 Definition obs (s : st) : str * N * list (str * str) := (out s, code (ex s), vars s).
